@@ -248,6 +248,20 @@ impl Drive {
                         self.note(format!("{e}"));
                     }
                 }
+                // the other glyf loader (HarfBuzz conventions), every third size
+                if i % 3 == 0 {
+                    let mut pen = HashPen::default();
+                    match og.draw(DrawSettings::unhinted(*s, LocationRef::new(&l)).with_path_style(skrifa::outline::pen::PathStyle::HarfBuzz), &mut pen) {
+                        Ok(m) => {
+                            self.oks += 1;
+                            self.note((pen.acc, pen.n, m.advance_width.map(|v| v.to_bits())));
+                        }
+                        Err(e) => {
+                            self.errs += 1;
+                            self.note(format!("{e}"));
+                        }
+                    }
+                }
             }
             for ei in 0..(if self.level >= 1 { 3 } else { 0 }) {
                 let (e, t) = (engines[(i + ei) % 3].clone(), targets[(i + ei) % 3]);
